@@ -40,6 +40,8 @@ type scalarScenario struct {
 	Prev int64 `json:"prev"`
 	// spec_reuse: how the *connect.Request was used before this call
 	Used string `json:"used"`
+	// spec_reuse: the base URL the client is built with (path prefixes, trailing slashes)
+	Base string `json:"base"`
 }
 
 // specSpy records the Spec a client-side interceptor sees.
@@ -300,7 +302,11 @@ func runScalars(raw json.RawMessage, seed int64, rec *Rec) {
 		})
 		var cspec connect.Spec
 		mkB := func() *connect.Client[BV, BV] {
-			return connect.NewClient[BV, BV](&memTransport{h: hB, major: 2}, "http://verif.test"+procB,
+			base := s.Base
+			if base == "" {
+				base = "http://verif.test"
+			}
+			return connect.NewClient[BV, BV](&memTransport{h: hB, major: 2}, base+procB,
 				append(clientProtoOpts(s.Proto), connect.WithInterceptors(specSpy{&cspec}))...)
 		}
 		var err error
